@@ -33,6 +33,7 @@ THEOREMS = {
         "Dawgs.C16.Props.sieve_step_retention",
         "Dawgs.C16.Props.sieve_counters_exact",
         "Dawgs.C16.Props.nemap_step_retention",
+        "Dawgs.C16.Props.sieve_exact_when_working_set_fits",
     ],
 }
 
@@ -75,6 +76,8 @@ CLAUSES = {
     "coherent also means: nothing is forgotten except by the policy (refinement alone would allow a cache that drops entries at will)": "sieve_step_retention (for every reachable state and every next operation: Get changes no stored binding; Delete k removes k only; Put of a stored key keeps the key set; "
         "Put of a new key with room evicts nothing; Put of a new key into a full cache evicts EXACTLY ONE stored key, never the new one; all other bindings keep their values) and nemap_step_retention "
         "(the map cache never evicts: Get / Put keep every stored key, a Put of a new key into a full cache is dropped and leaves the state unchanged, Delete k removes k only)",
+    "a cache whose working set fits is an exact map": "sieve_exact_when_working_set_fits (if every key the history puts lies in a list of at most capacity keys, the whole observable trace equals the "
+        "ideal never-evicting map's trace: a miss only where the ideal map misses); the second example shows the hypothesis is needed",
     "hit / miss statistics are exact": "sieve_counters_exact (after any history the hit counter is the number of hits the callers were given, the miss counter the number of misses, their sum the number of Get calls); "
         "the tie compares both counters after every operation",
     "eviction terminates": "sieve_evict_terminates (the clock sweep finds a victim within 2 * length steps; the Go loop is unbounded, the model's fuel is proved sufficient)",
@@ -105,7 +108,7 @@ SPEC = {
     "regen": do_regen,
     "lean_modules": ["Dawgs.Props.C16", "Dawgs.Props.C16Retain", "Dawgs.Props.C16Conc", "Dawgs.Props.C16Locks"],
     "theorems_by_module": THEOREMS,
-    "gate_modules": ["Dawgs.Model.C16", "Dawgs.Spec.C16", "Dawgs.Proofs.C16", "Dawgs.Props.C16", "Dawgs.Proofs.C16Retain", "Dawgs.Props.C16Retain", "Dawgs.Model.RWLock",
+    "gate_modules": ["Dawgs.Model.C16", "Dawgs.Spec.C16", "Dawgs.Proofs.C16", "Dawgs.Props.C16", "Dawgs.Proofs.C16Retain", "Dawgs.Proofs.C16Fits", "Dawgs.Props.C16Retain", "Dawgs.Model.RWLock",
                      "Dawgs.Proofs.RWLock", "Dawgs.Model.C16Conc", "Dawgs.Props.C16Conc", "Dawgs.Props.C16Locks"],
     "suites": [{"name": "c16", "model_suite": "c16", "monitor_suite": "c16mon", "keep_prefix": 2, "thorough_seeds": 1},
                {"name": "c16conc", "monitor_suite": "c16lin", "keep_prefix": 1, "race_in_thorough": True, "shrink_budget": 5}],
@@ -131,7 +134,7 @@ MANIFEST = {
     "category": "proof",
     "technique": "Lean 4 refinement proof (SIEVE/map cache model ⊑ ideal map, invariant by induction over histories) + differential correspondence with the Go code",
     "text": "Lean theorems over all operation histories, capacities and both cache implementations: entries ≤ capacity, one entry per key, size statistic exact, "
-            "every lookup is a miss or the latest undeleted put (refinement to an ideal map), eviction sweep terminates; retention (sieve_step_retention / nemap_step_retention: from every reachable state each operation forgets exactly what the policy says - one victim per insertion into a full SIEVE, nothing in the map cache, the named key on Delete - and changes no other binding) and exact hit / miss counters (sieve_counters_exact). The model is a line-by-line transcription "
+            "every lookup is a miss or the latest undeleted put (refinement to an ideal map), eviction sweep terminates; retention (sieve_step_retention / nemap_step_retention: from every reachable state each operation forgets exactly what the policy says - one victim per insertion into a full SIEVE, nothing in the map cache, the named key on Delete - and changes no other binding) exact hit / miss counters (sieve_counters_exact), and sieve_exact_when_working_set_fits (at most capacity distinct keys put => the whole trace equals the ideal map's, no spurious miss). The model is a line-by-line transcription "
             "of cache/sieve.go and cache/nemap.go and is compared with the real code (internal queue, visited bits and hand included, via a verif-tagged dump hook) "
             "on exhaustive short histories and random long ones every run.",
     "note": "Trusted: Lean kernel, the transcription checked by the differential tie, container/list + map + RWMutex + atomics semantics. Linearizability is proved on a lock-level LTS whose skeleton is extracted from the source; data races outside that skeleton are covered only by -race runs in the thorough tier.",
